@@ -123,13 +123,11 @@ func genC14(r *rand.Rand) *c14Case {
 			o = choose(r, c14OtherTags[:3])
 		}
 		cs.other = append(cs.other, o)
-		if strings.ContainsAny(o, "\"\\\n\t") || o != strings.TrimSpace(o) || o == "" || strings.Contains(o, ",") {
+		// what a route command cannot carry: a quote or a line break inside the quoted list, a comma inside one tag, blanks
+		// around a tag (they are trimmed when the list is read), an empty tag. A backslash, a TAB, non-ASCII letters can be
+		// written verbatim: a registration carrying such a tag next to its routing tags must still be routed.
+		if strings.ContainsAny(o, "\"\n\r") || o != strings.TrimSpace(o) || o == "" || strings.Contains(o, ",") {
 			cs.safeOther = false
-		}
-		for _, ch := range o {
-			if ch > 126 {
-				cs.safeOther = false
-			}
 		}
 	}
 	// interleave
